@@ -16,6 +16,11 @@ for d in sorted(os.listdir(os.path.join(V, "seeded"))):
     if len(hist) > 230:
         hist = hist[:227] + "..."
     res = "caught" if v.get("check_exit_code") == 1 else ("MISSED" if v.get("check_exit_code") == 0 else "?")
+    if v.get("retired"):
+        res = "retired"
+        hist = (v["retired"] + " Before that: " + hist)
+        if len(hist) > 330:
+            hist = hist[:327] + "..."
     rows.append("| %s | %s | %s | %s |" % (d, s, res, hist.replace("|", "/")))
 tab = "\n".join(["| seed | change | quick check | note |", "|---|---|---|---|"] + rows)
 p = os.path.join(V, "DESIGN.md")
